@@ -31,7 +31,8 @@ for f in sorted(glob.glob(os.path.join(os.path.dirname(os.path.dirname(os.path.a
         else:
             how = 'missed (exit %s)' % r.get('exit')
         res.append('%s: %s' % (prop, how))
-    rows.append((m['id'], m.get('what', ''), m.get('needs', ''), 'yes' if m.get('confirmed') else 'NO', '; '.join(res)))
+    esc = lambda t: t.replace('||', 'or').replace('|', '/')
+    rows.append((m['id'], esc(m.get('what', '')), esc(m.get('needs', '')), 'yes' if m.get('confirmed') else 'NO', '; '.join(res)))
 print('| seed | change | needs, to manifest | confirmed | quick check result |')
 print('|------|--------|--------------------|-----------|--------------------|')
 for r in rows:
